@@ -46,7 +46,7 @@ ASSUMES = ["offenders are inserted at top-level command boundaries, separated fr
            "covered by the corpus witnesses only"]
 
 UNKNOWN_ASCII = list("!%*+,-.0123456789=\\^hijkmsuwxz}~")
-UNKNOWN_OTHER = ["é", "Ω", "€", "あ", " ", "\u0001", "☃"]
+UNKNOWN_OTHER = ["é", "Ω", "€", "あ", "\u00a0", "\u0001", "☃", "…", "—", "“", "”", "•", "†", "‐", "‰", "※"]   # incl. the punctuation block next to the Unicode spaces zen2han folds
 WORDS = ["Foo", "XYZ1", "Abc_d", "Zz", "Hello", "Q_", "NoSuchCommand"]
 ERR_CH = re.compile(r'^\[ERROR\]\((-?\d+)\) Unknown Character: "(.*)" near ".*"$', re.S)
 ERR_WORD = re.compile(r'^\[ERROR\]\((-?\d+)\) Syntax Error "(.*)" near ".*"$', re.S)
